@@ -140,6 +140,8 @@ func mutateLine(r *Rng, line string) string {
 	return strings.Join(tok, " ")
 }
 
+const deepGoLine = "go depth 8 nodes 1500000"
+
 // optionBurst lines never change the position.
 var optionBurst = []string{
 	"setoption name Use_Hash value false", "setoption name Use_Hash value true", "setoption name Hash value 1", "setoption name Hash value 3",
@@ -237,6 +239,20 @@ func c16uci(c *Ctx) {
 			script = append(script, "position startpos moves "+strings.Join(ms, " "), "go depth 2")
 			rep.Inc("uci_long_game_lines")
 		}
+		if sid%12 == 7 {
+			// a deep search on a board crowded with heavy pieces (more than 64 legal moves) with
+			// move-count based heuristics switched off by option commands: this one is not
+			// stopped, its bestmove is awaited
+			var hb *rc.Board
+			for try := 0; try < 400; try++ {
+				hb = heavyPosition(r)
+				if len(hb.Legal()) > 66 {
+					break
+				}
+			}
+			script = append(script, "setoption name Use_Lmp value "+[]string{"false", "false", "false", "true"}[r.Intn(4)], "setoption name Use_Lmr value "+[]string{"true", "true", "true", "false"}[r.Intn(4)], "position fen "+hb.FEN(), deepGoLine)
+			rep.Inc("uci_deep_searches_on_crowded_boards")
+		}
 		rep.Inc("uci_sessions")
 		lastScript = script
 		for k, line := range script {
@@ -285,7 +301,17 @@ func c16uci(c *Ctx) {
 			}
 			u.send(line)
 			f := strings.Fields(line)
-			if len(f) > 0 && (f[0] == "go" || f[0] == "perft") {
+			if line == deepGoLine {
+				if _, ok, _ := u.waitFor(isBestmove, 180*time.Second); !ok {
+					u.send("stop")
+					if _, ok2, _ := u.waitFor(isBestmove, 30*time.Second); !ok2 {
+						rep.Viol("uci:no-bestmove:deep-search-on-crowded-board", fmt.Sprintf("%q gives no bestmove within 180 s and none within 30 s after stop (script %q)", line, trimAll(script[:k], 80)), map[string]interface{}{"session": sid, "transcript_tail": u.transcript(30)})
+						u.dispose()
+						u = nil
+						continue
+					}
+				}
+			} else if len(f) > 0 && (f[0] == "go" || f[0] == "perft") {
 				time.Sleep(time.Duration(r.Intn(3000)) * time.Microsecond)
 				if r.Chance(0.3) {
 					// option commands arriving while whatever the line started is still running
@@ -371,7 +397,7 @@ func c16uci(c *Ctx) {
 						time.Sleep(time.Millisecond)
 					}
 					u.poll()
-					u.send("go depth 1")
+					u.send("go depth 1 nodes 50000")
 					if _, ok, _ := u.waitFor(isBestmove, 30*time.Second); !ok {
 						rep.Viol("uci:no-bestmove-after-hostile-line:"+cmdClass(line), fmt.Sprintf("go depth 1 after line %q gives no bestmove", desc), payload)
 						u.dispose()
